@@ -26,5 +26,7 @@ func main() {
 		depth = 3
 	}
 	sweep.Explore(run, sweep.Options{Prop: "C07", Bias: "idle", NBase: run.N(120, 1500), Depth: depth, DeepPct: 12, Workers: 6, CleanStops: 4})
+	run.Assume("cluster class: three-node cluster double without topology changes, non-transactional replay (blocking and pipelined), position writes that arrive 4-25 ms late on their connection")
+	clusterPositions(run)
 	run.Exit()
 }
